@@ -25,7 +25,9 @@ RULE = (
   "case=(kind,seed): generated constraint scene (equalities, friction loss, limits, contacts condim 1/3/4/6, margins, "
   "adhesion), pile of 3..8 free bodies, closed loop chain, or a repository model; state random or settled by 30/150 MuJoCo "
   "steps; 3 worlds with cold / hostile random / near-optimal warmstart; forward() twice (second call warm-started from the "
-  "first solution). Newton+CG, pyramidal+elliptic, dense+sparse, WARMSTART on/off. Non-trivial: >=1 judged world with "
+  "first solution); 'optb' family: 6 worlds of bodies sliding on a plane with per-world Model.opt.impratio_invsqrt / tolerance / "
+  "ls_tolerance, stat.meaninertia and geom_friction batched with mutually different leading sizes (1,2,3,6), tight next to "
+  "loose tolerances, every world certified with its own values and against a MuJoCo model carrying them. Newton+CG, pyramidal+elliptic, dense+sparse, WARMSTART on/off. Non-trivial: >=1 judged world with "
   ">=3 active rows and solver_niter>=1; distinct by hash(xml, qpos, qvel)."
 )
 ASSUMPTIONS = [
@@ -190,7 +192,7 @@ def batch_options(rng, mjm, m, nworld):
       loose[int(rng.integers(tol.size))] = True
     tol = np.where(loose, 10.0 ** rng.uniform(-3, -1, size=tol.size), tol)
   lstol = 10.0 ** rng.uniform(-2.5, -1, size=lens["ls_tolerance"])
-  mi = float(mjm.stat.meaninertia) * 10.0 ** rng.uniform(-1.5, 1.5, size=lens["meaninertia"])
+  mi = float(mjm.stat.meaninertia) * 10.0 ** rng.uniform(-1, 1, size=lens["meaninertia"])
   fri = np.array(mjm.geom_friction)[None] * np.exp(rng.uniform(np.log(0.5), np.log(2.0), size=(lens["geom_friction"], mjm.ngeom, 1)))
   inv32 = (1.0 / np.sqrt(imp)).astype(np.float32)
   tol32, ls32, mi32, fri32 = tol.astype(np.float32), lstol.astype(np.float32), mi.astype(np.float32), fri.astype(np.float32)
